@@ -1,4 +1,13 @@
 #include "specdefs.h"
+/* term-level model of TMCG_MaskCard (the real function is under contract in group C01_vtmf) */
+static inline void SchindelhauerTMCG__TMCG_MaskCard(SchindelhauerTMCG *self, VTMF_Card *c, VTMF_Card *cc, VTMF_CardSecret *cs,
+                                                    BarnettSmartVTMF_dlog *vtmf, _Bool tap)
+{ (void)self; (void)tap; long a = MASK1(V(c->c_1), V(cs->r)), b = MASK2(V(c->c_2), V(cs->r)); cc->c_1->v = a; cc->c_2->v = b; }
+/* R13: find_position = first position whose .first equals index, else size (linear search model) */
+static inline size_t TMCG_StackSecret_VTMF_CardSecret__find_position(TMCG_StackSecret_VTMF_CardSecret *self, size_t index)
+{ for (size_t k = 0; k < MAXN; k++) if (k < self->stack.size && self->stack.data[k].first == index) return k; return self->stack.size; }
+static inline _Bool VTMF_CardSecret__import(VTMF_CardSecret *cs, str_t s) { (void)s; cs->r->v = (long)nondet_ulong(); return nondet_bool(); }
+
 /* ---------------------------------------------------------------------------
  * Ghost monitor of one cut-and-choose run, sampled at the arbitrary round
  * ghost_r (never assigned).  The per-round objects of the verifier are locals
@@ -50,6 +59,8 @@ static inline void ios_put_TMCG_Stack_VTMF_Card(ios_t *o, TMCG_Stack_VTMF_Card *
     if (k < s->stack.size) a = UF(acc_card)(a, V(s->stack.data[k].c_1), V(s->stack.data[k].c_2));
   o->acc = a;
   last_putstack_acc = a;
+  if (putstack_n == ghost_r) gr_remix_acc = a;
+  __CPROVER_assume(putstack_n + 1 > putstack_n); putstack_n = putstack_n + 1;
 }
 /* branches that are compiled out when TMCG_HASH_COMMITMENT is true (it is): arbitrary outcome */
 static inline void ios_get_TMCG_Stack_VTMF_Card(ios_t *in, TMCG_Stack_VTMF_Card *s) { (void)s; in->fail = nondet_bool(); }
